@@ -116,10 +116,18 @@ Proof. exact highs_meaning. Qed.
 
 (* C11.  The judge of e2e_amp runs amp_scan over the wire log ... *)
 Theorem E2E_amp_judge_parts : forall case out, e2e_amp_judge case out = true ->
-  exists rws, take_rows 7 (nz out 8) (skipn 9 out) = Some (rws, []) /\
+  exists rws, take_rows 7 (nz out 8) (skipn 10 out) = Some (rws, []) /\
     nz out 6 = 0 /\
-    amp_scan (nz out 1) (nz out 2) [] 0 0 false (map mk_wrec rws) = true.
+    amp_scan (nz out 1) (nz out 2) [] 0 0 false (amp_log1 (nz out 9) (map mk_wrec rws)) = true /\
+    (nz out 9 <> -1 ->
+     amp_scan (nz out 1) (nz out 9) [] 0 0 false (amp_log2 (nz out 2) (nz out 9) (map mk_wrec rws)) = true).
 Proof. exact amp_judge_parts. Qed.
+
+(* the client's address after a rebinding is judged by the same scan on the rows that do not
+   involve its first address, the path-validated marker playing the role of the address-validated one *)
+Theorem E2E_amp_log2_rows : forall cli cli2 l e', In e' (amp_log2 cli cli2 l) ->
+  exists e, In e l /\ e' = remark cli2 e /\ (involves cli e = false \/ w_kind e = 2).
+Proof. exact amp_log2_rows. Qed.
 
 (* ... and an accepted log satisfies, at every event [e] with the events [pre] before it: *)
 Theorem E2E_amp_sound : forall srv cli l pre e post,
@@ -264,13 +272,18 @@ Theorem E2E_cc_once_scan_sound : forall l s, once_scan s l = true ->
 Proof. exact once_scan_sound. Qed.
 
 Theorem E2E_cc_once_reduction_sound : forall s r, once_check s r = true ->
-  x_k r = 3 -> g_a r < o_cwnd s -> o_cong s = true ->
-  o_red_t s = -1 \/ o_red_ok s = true \/ g_a r <= 2 * o_mtu s.
+  x_k r = 3 -> o_lost s = true -> 0 <= o_rec s ->
+  is_md (o_cwnd s) (g_a r) = false \/ g_a r <= 2 * o_mtu s.
 Proof. exact once_reduction_sound. Qed.
 
-Theorem E2E_cc_once_flag_rule : forall s r, o_red_ok (once_upd s r) = true -> o_red_ok s = false ->
-  x_k r = 1 /\ exists u, In u (o_sent s) /\ o_cov (g_x r) (g_a r) (g_b r) u = true /\ o_red_t s < snd u.
-Proof. exact once_flag_rule. Qed.
+Theorem E2E_cc_once_period_rule : forall s r, x_k r = 3 ->
+  let s' := once_upd s r in
+  (o_rec s < 0 -> 0 <= o_rec s' ->
+     o_lost s = true /\ is_md (o_cwnd s) (g_a r) = true /\ o_rec s' = g_time r) /\
+  (0 <= o_rec s -> o_rec s' < 0 ->
+     o_rec s < o_ack_t s \/ (o_lost s = true /\ g_a r <= 2 * o_mtu s)).
+Proof. exact once_period_rule. Qed.
+
 
 Theorem E2E_cc_scan_sound : forall cc l s, cc_scan cc s l = true ->
   forall pre r post, l = pre ++ r :: post ->
@@ -377,6 +390,7 @@ Print Assumptions E2E_cc_bif_invariant.
 Print Assumptions E2E_cc_sent_sound.
 Print Assumptions E2E_cc_once_scan_sound.
 Print Assumptions E2E_cc_once_reduction_sound.
-Print Assumptions E2E_cc_once_flag_rule.
+Print Assumptions E2E_cc_once_period_rule.
 Print Assumptions E2E_violate_judge_parts.
 Print Assumptions E2E_violate_sound.
+Print Assumptions E2E_amp_log2_rows.
